@@ -608,6 +608,7 @@ func (t *tapSerializer) Marshal(m pilosa.Message) ([]byte, error) {
 	}
 	t.check(m, b, "marshal")
 	c27Keep(m, b)
+	c27NoteSent(m, b)
 	return b, err
 }
 
@@ -625,6 +626,7 @@ func c27Keep(m pilosa.Message, b []byte) {
 func (t *tapSerializer) Unmarshal(b []byte, m pilosa.Message) error {
 	err := t.real.Unmarshal(b, m)
 	if err == nil {
+		c27CheckReceived(t.d, t.node, m, b)
 		// fixpoint: what was decoded must encode and decode to itself
 		if b2, err2 := t.real.Marshal(m); err2 == nil {
 			t.check(m, b2, "unmarshal-fixpoint")
@@ -664,6 +666,7 @@ func clip(s string) string {
 
 func c27Prepare(d *db) {
 	c27Samples = map[reflect.Type][][]byte{} // per run
+	c27SentTypes = map[string]map[reflect.Type]bool{}
 	d.cl.serWrap = func(n *simNode, s pilosa.Serializer) pilosa.Serializer {
 		return &tapSerializer{real: s, d: d, node: n.id}
 	}
@@ -688,6 +691,14 @@ var c27Types = []func() pilosa.Message{
 
 func c27Extra(d *db, op simrt.Op) bool {
 	switch op.K {
+	case "codecvals":
+		c27Values(d, op)
+		return true
+	case "setcoord":
+		if d.downNode == nil {
+			c27SetCoordinator(d)
+		}
+		return true
 	case "garbage": // I=[seed]: arbitrary and damaged bytes into Unmarshal of every message type
 		r := simrt.NewRand(uint64(op.I[0]))
 		ser := proto.Serializer{}
@@ -788,6 +799,11 @@ func genC27(r *simrt.Rand, tier string) *simrt.Plan {
 	g := &dbGen{r: r, index: "i", nodes: int(p.Knobs["nodes"])}
 	// more message kinds: schema deletion, recalculate, garbage decoding
 	ops = append(ops, simrt.Op{K: "recalc"}, simrt.Op{K: "garbage", I: []int64{int64(r.Uint64() >> 2)}})
+	ops = append(ops, simrt.Op{K: "codecvals", I: []int64{int64(r.Uint64() >> 2), int64(simrt.Pick(r, 2, 4, 8)), int64(simrt.Pick(r, 0, 0, 0, 0, 0, 0, 1))}})
+	if r.Bool(0.6) {
+		at := r.Intn(len(ops) + 1)
+		ops = append(ops[:at:at], append([]simrt.Op{{K: "setcoord"}}, ops[at:]...)...)
+	}
 	if r.Bool(0.5) {
 		ops = append(ops, simrt.Op{K: "mkfield", S: []string{"i", "zz", "set", ""}, I: []int64{0, 0, 0, 100, 0, g.node()}},
 			simrt.Op{K: "rmfield", S: []string{"i", "zz"}, I: []int64{g.node()}})
